@@ -122,6 +122,9 @@ func implTree(t *gen.OpTable, b *px.Built, x any) string {
 }
 
 type c05Case struct {
+	// History: operator tables generated earlier in the same process, in order
+	// (a defect may depend on what the process generated before).
+	History []int        `json:"history,omitempty"`
 	Table   int          `json:"table"`
 	Grammar *gen.Grammar `json:"grammar"`
 	Text    string       `json:"lox"`
@@ -183,7 +186,11 @@ func c05Inputs(t *gen.OpTable, maxOps, maxParenOps int, f func(w []int)) {
 	rec2([]int{t.Atom}, 0)
 }
 
+var c05History []int
+
 func c05Table(ws *pipe.Workspace, r *px.Runner, ti int, t *gen.OpTable, maxOps, maxParenOps int, st *mc.Stats, only []int) []mc.Violation {
+	hist := append([]int(nil), c05History...)
+	c05History = append(c05History, ti)
 	var out []mc.Violation
 	g := t.Grammar
 	b := px.Build(ws, g, px.NB)
@@ -223,7 +230,7 @@ func c05Table(ws *pipe.Workspace, r *px.Runner, ti int, t *gen.OpTable, maxOps, 
 			for _, x := range w {
 				names = append(names, g.Toks[x])
 			}
-			raw, _ := json.Marshal(c05Case{Table: ti, Grammar: g, Text: g.LoxText(), Input: names, W: w})
+			raw, _ := json.Marshal(c05Case{History: hist, Table: ti, Grammar: g, Text: g.LoxText(), Input: names, W: w})
 			out = append(out, mc.Violation{Property: "C05", Check: "C05", Kind: kind, Size: len(w)*1000 + ti, Case: raw,
 				Detail: fmt.Sprintf("grammar {%s} input %s: %s", g.String(), strings.Join(names, " "), detail), Known: known})
 		}
@@ -311,6 +318,12 @@ func c05Replay(raw json.RawMessage) *mc.Violation {
 	tabs := gen.OpTables()
 	if cs.Table < 0 || cs.Table >= len(tabs) {
 		return nil
+	}
+	// re-create the process history first (build the same tables in the same order)
+	for _, h := range cs.History {
+		if h >= 0 && h < len(tabs) {
+			px.Build(ws, tabs[h].Grammar, px.NB)
+		}
 	}
 	vs := c05Table(ws, r, cs.Table, tabs[cs.Table], 4, 2, &st, cs.W)
 	if len(vs) == 0 {
